@@ -224,6 +224,10 @@ pub fn hand_seeds() -> Vec<Seed> {
         "{{ true }}{{ False }}{{ None }}{{ null }}",
         "{{ __tera_context }}",
         "é{{ \"日\" }}😀",
+        // a loop whose body holds an if / elif, followed by text and a second loop (what a misplaced
+        // tag right after the first loop meets: seeded change C06-12 left the parser's context stack
+        // one entry too deep after every `elif`)
+        "{% for x in a %}{% if x %}1{% elif b %}2{% else %}3{% endif %}{% endfor %}z{% for y in a %}{{ y }}{% endfor %}",
     ];
     let multi: &[&[(&str, &str)]] = &[
         &[("p", "{% block b %}P{% endblock %}"), ("c", "{% extends \"p\" %}{% block b %}{{ super() }}{% endblock %}")],
